@@ -14,7 +14,7 @@ def fs_rules(n_sort=4, crate_bound=8, path_bound=40):
     return [
         (r"sort|smallsort|insert_tail|bidirectional_merge|heapsort|quicksort|partition", n_sort + 2),
         (r"memcmp|memchr|Components|rposition|position|trim|utf8|Utf8|from_utf8|CharSearcher|next_match|char_count", path_bound),
-        (r"6kv_kfs", 48),
+        (r"\d+kv_", 48),
         (r"12kismet_cache", crate_bound),
     ]
 
@@ -108,6 +108,8 @@ for n, b in [("kfs_selftest", "KFS fabrication of Metadata/paths re-validated th
              ("raw_collect_empty_temp", "listing {.kismet_temp/}; missing directory"),
              ("raw_apply_update_evict_a_moveback_b", "plan evict [ka] move back [kb]; either may have vanished"),
              ("raw_apply_update_moveback_a_b", "plan move back [ka, kb]; ka may have vanished"),
+             ("raw_apply_update_chain_sym", "plan evict [ka], move back [kb, kc]; kb may have vanished"),
+             ("raw_apply_update_chain_gone", "plan evict [ka], move back [kb, kc]; kb has vanished"),
              ("raw_prune_pieces_dotfile_only", "collect + capacity-0 plan + apply_update on {.p}"),
              ("raw_prune_pieces_dotfile_and_a", "collect + capacity-0 plan + apply_update on {ka, .p}")]:
     unit(K("raw_ops", n, functions=RAW, bounds=b, timeout=1500, mem_gb=16 if ("ab_sub" in n or "and_a" in n) else 10))
